@@ -87,6 +87,8 @@ def run(ctx, spec):
     for b in range(spec['batches']):
       if not ctx.want('batch%d' % b):
         continue
+      if b > 4 and ctx.spent(0.5):
+        break
       rng = ctx.rng('mixed', b)   # per batch, so that --replay regenerates it
       size = rng.choice([1, 2, 3, 5, 8, 13, 25, 40])
       if ctx.tier == 'quick':
